@@ -27,6 +27,14 @@ class SArr(_np.ndarray):
 
     __hash__ = None
 
+    def __setitem__(self, key, value):
+        # boolean-mask assignment with a symbolic mask:  a[mask] = v  ->  a[i] = ite(mask[i], v, a[i])
+        if isinstance(key, _np.ndarray) and key.dtype == object and key.shape == self.shape and key.size and isinstance(key.flat[0], B):
+            for idx in _np.ndindex(self.shape):
+                _np.ndarray.__setitem__(self, idx, ite(key[idx], value if not isinstance(value, _np.ndarray) else value[idx], self[idx]))
+            return
+        _np.ndarray.__setitem__(self, key, value)
+
 
 def _elem(f):
     def g(x, *a, **k):
